@@ -1,6 +1,6 @@
 #!/bin/sh
 # usage: try_seeded.sh <seeded-dir-name> <Cxx> [tier]   -- apply patch to /repo, run check, undo
-cd /repo && git apply /verif/seeded/$1/patch.diff || exit 3
+cd /repo && (git apply /verif/seeded/$1/patch.diff 2>/dev/null || patch -p1 -F3 -s < /verif/seeded/$1/patch.diff) || { git checkout -- .; exit 3; }
+find /repo -name '*.orig' -delete; find /repo -name '*.rej' -delete
 cd /verif && bin/check $2 --tier ${3:-quick} 2>&1 | tail -${TAIL:-8}
-echo "exit=$?"
 git -C /repo checkout -- .
